@@ -233,6 +233,9 @@ func genStep(rt *rapid.T, p *Profile, cfg *Config, i int) Step { //nolint:cyclop
 		}
 		st.Retx = rapid.IntRange(0, 5).Draw(rt, "retx") == 0
 		st.RespLost = rapid.IntRange(0, 9).Draw(rt, "allocRespLost") == 0
+		if (p.Teardown || p.Odd) && !cfg.isStream(st.C) && rapid.IntRange(0, 7).Draw(rt, "tcpAlloc") == 0 {
+			st.Tcp = true // a TCP relay asked for over the datagram listener (this server grants it)
+		}
 		if !st.Retx && rapid.IntRange(0, 5).Draw(rt, "afterRefresh0") == 0 {
 			st.Rel, st.RespLost = "after-refresh0", false // Refresh(0) and the new Allocate back to back
 		}
